@@ -1245,13 +1245,34 @@ func (s *Server) subscriptionsListen(ctx context.Context, req *SubscriptionsList
 		if err != nil {
 			return nil, err
 		}
-		defer s.unsubscribe(ctx, &UnsubscribeRequest{
-			Session: req.Session,
-			Params: &UnsubscribeParams{
-				URI:  uri,
-				Meta: req.Params.GetMeta(),
-			},
-		})
+		defer func() {
+			// Remove the subscription only while it is still the one this listen
+			// made: a newer listen of the same session may have subscribed to the
+			// URI in the meantime (unsubscribe followed at once by subscribe), and
+			// that subscription is not ours to remove. Check and removal happen
+			// under one lock.
+			s.mu.Lock()
+			subscribedSessions := s.resourceSubscriptions[uri]
+			owner, ok := subscribedSessions[req.Session]
+			mine := ok && owner == requestID
+			if mine {
+				delete(subscribedSessions, req.Session)
+				if len(subscribedSessions) == 0 {
+					delete(s.resourceSubscriptions, uri)
+				}
+			}
+			s.mu.Unlock()
+			if mine && s.opts.UnsubscribeHandler != nil {
+				s.opts.UnsubscribeHandler(ctx, &UnsubscribeRequest{
+					Session: req.Session,
+					Params: &UnsubscribeParams{
+						URI:  uri,
+						Meta: req.Params.GetMeta(),
+					},
+				})
+				s.opts.Logger.Info("resource unsubscribed", "uri", uri, "session_id", req.Session.ID())
+			}
+		}()
 	}
 
 	ackParams := &SubscriptionsAcknowledgedParams{
